@@ -41,7 +41,59 @@ pub fn values() -> Vec<Value> {
     al::dedup(v)
 }
 
+/// Expressions whose *computed* result is a given falsy / truthy value (operator results, not data).
+pub fn computed() -> Vec<Value> {
+    vec![
+        json!({"-": [1, 1]}), json!({"*": [0.5, 0]}), json!({"/": [0, 5]}), json!({"%": [4, 2]}), json!({"-": [0]}), json!({"+": []}), json!({"min": [0, 1]}),
+        json!({"-": [1e-300, 0]}), json!({"*": [5e-324, 1]}), json!({"/": [1, 1e300]}), json!({"+": [0.1, 0.2, -0.3]}), json!({"-": [9007199254740993u64, 9007199254740992u64]}),
+        json!({"substr": ["abc", 3]}), json!({"substr": ["abc", 2]}), json!({"cat": []}), json!({"cat": [""]}), json!({"cat": [" "]}), json!({"cat": [0]}), json!({"cat": [[]]}),
+        json!({"filter": [[1], false]}), json!({"filter": [[0], true]}), json!({"merge": []}), json!({"merge": [[]]}), json!({"merge": [[[]]]}), json!({"map": [[], 1]}), json!({"map": [[1], 0]}),
+        json!({"missing": []}), json!({"missing": ["zz"]}), json!({"missing_some": [1, ["zz"]]}), json!({"missing_some": [0, ["zz"]]}),
+        json!({"var": "nope"}), json!({"var": ["nope", 0]}), json!({"var": ["nope", "0"]}), json!({"var": ["nope", []]}), json!({"var": ["nope", [0]]}), json!({"var": ["nope", {}]}),
+        json!({"==": [1, 2]}), json!({"!": [1]}), json!({"in": [1, [2]]}), json!({"all": [[], 1]}), json!({"some": [[1], 0]}), json!({"none": [[1], 1]}),
+        json!({"if": [0, 1]}), json!({"if": []}), json!({"and": [1, 0]}), json!({"or": [0, ""]}), json!({"reduce": [[], 1, 0]}), json!({"reduce": [[1], {"var": "nope"}, 5]}),
+        json!({"max": [0, -1]}), json!({"log": 0}), json!({"log": "0"}),
+    ]
+}
+
 pub fn run(ctx: &mut Ctx) {
+    // computed operands: what the operators themselves return, in every deciding position
+    for e in computed() {
+        if !ctx.mine() {
+            continue;
+        }
+        let d = json!({"pad": 1});
+        for (sub, rule) in [
+            ("!:computed", op("!", vec![e.clone()])), ("!!:computed", op("!!", vec![e.clone()])),
+            ("if:computed", op("if", vec![e.clone(), json!("T"), json!("F")])), ("and:computed", op("and", vec![e.clone(), json!("next")])),
+            ("or:computed", op("or", vec![e.clone(), json!("next")])), ("filter:computed", op("filter", vec![json!([1, 2]), e.clone()])),
+            ("all:computed", op("all", vec![json!([1, 2]), e.clone()])), ("some:computed", op("some", vec![json!([1, 2]), e.clone()])),
+            ("none:computed", op("none", vec![json!([1, 2]), e.clone()])), ("?::computed", op("?:", vec![json!(0), json!("x"), e.clone(), json!("T"), json!("F")])),
+        ] {
+            ctx.edge();
+            ctx.check(sub, &rule, &d);
+        }
+    }
+    // sizes: long strings, arrays and objects are truthy whatever they hold
+    for n in al::size_classes(ctx.tier_thorough) {
+        if !ctx.mine() {
+            continue;
+        }
+        let mut m = serde_json::Map::new();
+        for i in 0..n {
+            m.insert(format!("k{}", i), json!(null));
+        }
+        for v in [json!("0".repeat(n)), json!(" ".repeat(n)), json!("\u{0}".repeat(n)), Value::Array(vec![json!(null); n]), Value::Array(vec![json!([]); n]), Value::Object(m.clone())] {
+            for (_ch, e, d) in channels(&v) {
+                for k in ["!", "!!"] {
+                    ctx.edge();
+                    ctx.check("size-probe", &op(k, vec![e.clone()]), &d);
+                }
+                ctx.check("size-probe", &op("if", vec![e.clone(), json!("T"), json!("F")]), &d);
+                ctx.check("size-probe", &op("filter", vec![json!([1]), e.clone()]), &d);
+            }
+        }
+    }
     for v in values() {
         for (_ch, e, d) in channels(&v) {
             if !ctx.mine() {
